@@ -187,6 +187,12 @@ def worker_scratch() -> Scratch:
     """One scratch root per worker process (cleaned by the parent at the end)."""
     global _WORKER_SCRATCH
     if _WORKER_SCRATCH is None or _WORKER_SCRATCH[0] != os.getpid():
+        if "VERIF_SCRATCH" not in os.environ:  # stand-alone replay tests run without the runner
+            import atexit
+
+            root0 = tempfile.mkdtemp(prefix="mokaverif_standalone_", dir=scratch_root())
+            os.environ["VERIF_SCRATCH"] = root0
+            atexit.register(shutil.rmtree, root0, True)
         root = Path(os.environ["VERIF_SCRATCH"])
         s = Scratch.__new__(Scratch)
         s.path = Path(tempfile.mkdtemp(prefix=f"w{os.getpid()}_", dir=root))
